@@ -5,6 +5,9 @@
 (* The file system is a small abstract tree: every requestable path has a kind and    *)
 (* the node it resolves to once symbolic links and '..' are eliminated; a pattern is   *)
 (* abstracted to the set of resolved nodes it matches.                                 *)
+(* Where the rule list comes from (config/server.go ServerUserPermissions()): the user's own list if the configuration has  *)
+(* one - also when it is empty, which locks the account out entirely - otherwise the default list.  The harness installs   *)
+(* every enumerated rule list as default list, as a user's own list, and beside an empty own list of another user.          *)
 EXTENDS Integers, Sequences, FiniteSets, TLC
 CONSTANTS Paths,       \* requestable paths (strings)
           ResolvesTo,  \* [Paths -> Paths \cup {"ERR"}]: fully resolved path ("ERR": dangling link)
